@@ -954,8 +954,24 @@ var tamperKinds = []string{
 	"querykey-other", "querykey-bit",
 	"bitmap-bit", "bitmap-resize",
 	"sibling-drop", "sibling-bit", "sibling-insert", "sibling-swap",
-	"queries-swap", "query-drop", "query-forged",
+	"queries-swap", "query-drop", "query-forged", "query-forged-climbing",
 	"root-other", "keylength-other",
+}
+
+// bitmapHeight: number of significant bits of a proof bitmap (= height of the query's node).
+func bitmapHeight(bm []byte) int {
+	h := 8 * len(bm)
+	for _, b := range bm {
+		if b == 0 {
+			h -= 8
+			continue
+		}
+		for m := byte(0x80); m != 0 && b&m == 0; m >>= 1 {
+			h--
+		}
+		break
+	}
+	return h
 }
 
 func drawOtherKey(t *rapid.T, L int, kv map[string][]byte, pool [][]byte, not []byte) []byte {
@@ -1173,6 +1189,48 @@ func tamper(t *rapid.T, w *wire, kind string, r *runner, pool, vals [][]byte) (*
 		c.Keys = append(c.Keys, k)
 		c.Q = append(c.Q, f)
 		return c, fmt.Sprintf("append forged pair queryKey=%x key=%x value=%x bitmap=%x", k, f.Key, f.Value, f.Bitmap), true
+	case "query-forged-climbing":
+		// a forged query one level below the deepest honest query, on the same path, with its own forged sibling hash placed
+		// where it will be consumed first: after one step it climbs onto the honest query's path (two fields change, but it is
+		// the one forgery shape in which the forged node never has to match anything if merged queries are not compared)
+		best, bh := -1, -1
+		for i := range c.Q {
+			if h := bitmapHeight(c.Q[i].Bitmap); h > bh {
+				best, bh = i, h
+			}
+		}
+		if best < 0 || bh < 1 || bh+1 > 8*L {
+			return nil, "", false
+		}
+		k := cp(c.Q[best].Key)
+		// keep the first bh bits (the honest path), choose the next bit, randomise the rest
+		rest := randBytes(t, L, "climbRest")
+		for bit := bh; bit < 8*L; bit++ {
+			if rest[bit/8]&(0x80>>uint(bit%8)) != 0 {
+				k[bit/8] |= 0x80 >> uint(bit%8)
+			} else {
+				k[bit/8] &^= 0x80 >> uint(bit%8)
+			}
+		}
+		f := tq{Key: cp(k)}
+		if irange(0, 3).Draw(t, "climbEmpty") == 0 {
+			f.Value = []byte{}
+		} else {
+			f.Value = randBytes(t, 32, "climbValue")
+		}
+		// bitmap of height bh+1: top bit set (a sibling hash is consumed), the remaining bits copy the honest bitmap
+		nb := (bh + 1 + 7) / 8
+		bm := make([]byte, nb)
+		hb := c.Q[best].Bitmap
+		for i := 0; i < len(hb) && i < nb; i++ {
+			bm[nb-1-i] = hb[len(hb)-1-i]
+		}
+		bm[nb-1-bh/8] |= 1 << uint(bh%8)
+		f.Bitmap = bm
+		c.Keys = append(c.Keys, cp(k))
+		c.Q = append(c.Q, f)
+		c.Sib = append([][]byte{randBytes(t, 32, "climbSibling")}, c.Sib...)
+		return c, fmt.Sprintf("append forged climbing pair key=%x value=%x bitmap=%x below query[%d] plus one forged sibling hash in front", f.Key, f.Value, f.Bitmap, best), true
 	case "root-other":
 		var o []byte
 		switch irange(0, 3).Draw(t, "rootKind") {
@@ -1752,4 +1810,31 @@ func TestRegressVerifySamePathQueries(t *testing.T) {
 			t.Fatalf("case %d: proof verifies although query[1] claims inclusion of a pair that is not in the map\n%s", i, w)
 		}
 	}
+}
+
+// Regression (C10-F3): a forged deeper query with its own forged sibling hash climbing onto an honest query's path.
+func TestRegressForgedClimbingQuery(t *testing.T) {
+	store := newMapStore()
+	L := 4
+	tr := smt.NewTrie(nil, L)
+	k1, k2 := []byte{0, 0, 0, 0}, []byte{0, 0, 0x80, 1}
+	v := make([]byte, 32)
+	root, err := tr.Update(store, [][]byte{k1, k2}, [][]byte{v, v})
+	if err != nil {
+		t.Fatal(err)
+	}
+	proof, err := tr.Prove(store, [][]byte{k2, k1})
+	if err != nil {
+		t.Fatal(err)
+	}
+	if ok, err := smt.Verify([][]byte{k2, k1}, proof, root, L); !ok || err != nil {
+		t.Fatalf("honest proof rejected: %v %v", ok, err)
+	}
+	forgedKey := []byte{0, 0, 0x80, 0}
+	proof.Queries = append(proof.Queries, &smt.QueryProof{Key: forgedKey, Value: make([]byte, 32), Bitmap: []byte{3, 0, 0}})
+	proof.SiblingHashes = append([]codec.Hex{make([]byte, 32)}, proof.SiblingHashes...)
+	if ok, _ := smt.Verify([][]byte{k2, k1, forgedKey}, proof, root, L); ok {
+		t.Fatalf("proof with a forged inclusion claim for %x verifies", forgedKey)
+	}
+	evid.R.Case("regress-forged-climbing", true, func() any { return "map {00000000,00008001}, forged pair key 00008000 bitmap 030000 + forged sibling" }, "regress")
 }
